@@ -15,3 +15,16 @@ Print Assumptions C20_bound_refuted.
 Theorem C20_bound_formula : C20_bound_formula_stmt.
 Proof. exact C20_bound_formula_proof. Qed.
 Print Assumptions C20_bound_formula.
+
+(* What DOES hold, for every scenario of the cost/value domain and every goal-reaching history
+   (statements in theories/StmtHops.v, proofs in proofs/PC20b.v). *)
+From NasimV Require Import StmtHops.
+From NasimV.proofs Require Import PC20b.
+
+Theorem C20_sound_bound : C20_sound_bound_stmt.
+Proof. exact C20_sound_bound_proof. Qed.
+Print Assumptions C20_sound_bound.
+
+Theorem C20_advertised_bound_valid_when : C20_advertised_bound_valid_when_stmt.
+Proof. exact C20_advertised_bound_valid_when_proof. Qed.
+Print Assumptions C20_advertised_bound_valid_when.
